@@ -1,5 +1,7 @@
 import CasbinVerif.Spec.Persist
 import CasbinVerif.Properties.C04
+import CasbinVerif.Proofs.C11
+import CasbinVerif.Proofs.C11Load
 /-
   C11 — A failed persistence or load leaves the enforcer unchanged.
 
@@ -14,7 +16,8 @@ namespace Casbin.C11
 theorem error_leaves_memory (e : Enf) (op : MOp) (e' : Enf) (b : Bool)
     (h : e.applyM op = some (e', .err b)) (hop : e.opWF op = true) (hwf : e.WFState) :
     b = false ∧ e'.memory = e.memory := by
-  sorry
+  obtain ⟨hb, sc⟩ := err_applyM e op e' b h hop hwf
+  exact ⟨hb, memory_of_sameCore sc⟩
 
 /-- when the armed adapter call is reached, the call reports that error -/
 theorem armed_first_call_fails (e : Enf) (op : MOp) (a : AdapterSt) (ha : e.adapter = some a)
@@ -28,21 +31,28 @@ theorem armed_first_call_fails (e : Enf) (op : MOp) (a : AdapterSt) (ha : e.adap
       | .removeFiltered _ _ _ vals => vals ≠ []
       | _ => True) :
     ∃ e', e.applyM op = some (e', .err false) ∧ e'.memory = e.memory := by
-  sorry
+  have harmed : Armed e := ⟨⟨a, ha, harm⟩, hs⟩
+  obtain ⟨e', he'⟩ := armed_fails e op harmed sec pt sop hop hex hreach
+  exact ⟨e', he', memory_of_sameCore (armed_applyM e op harmed sec pt sop hop e' _ he')⟩
 
 /-- a failed LoadPolicy (adapter error, error after k delivered lines for any k, malformed line)
     leaves rules and role links exactly as they were: nothing from the rejected load is visible -/
 theorem load_failure_atomic (e : Enf) (h : e.loadPolicy.2 = false) (hb : e.autoBuild = true) :
     e.loadPolicy.1.p = e.p ∧ e.loadPolicy.1.g = e.g := by
-  sorry
+  have _ := hb   -- not needed: every failing path keeps the rules
+  have := load_failure_pg e h
+  exact ⟨this.2.1, this.2.2⟩
 
 theorem load_failure_links (e : Enf) (h : e.loadPolicy.2 = false) (hwf : e.WFState) (hm : e.LinksMirror) :
     C04.RMEquiv e.rm e.loadPolicy.1.rm := by
-  sorry
+  have _ := hm   -- not needed: the rollback branch is unreachable in a well-formed state
+  rcases load_rm e hwf with h' | h'
+  · rw [h']; exact Fresh.RMEq.refl _
+  · rw [h] at h'; cases h'
 
 /-- a failed SavePolicy changes nothing in memory -/
 theorem save_failure_atomic (e : Enf) (h : e.savePolicy.2 = false) : e.savePolicy.1.memory = e.memory := by
-  sorry
+  exact memory_of_sameCore (save_failure e h)
 
 /-- the decisive structural fact: in every management call the adapter is called before memory is
     touched — if the adapter call fails the state differs from the one before at most in the adapter -/
@@ -50,6 +60,6 @@ theorem persist_precedes_mutate (e : Enf) (op : MOp) (e' : Enf) (res : Enf.MRes)
     (a : AdapterSt) (ha : e.adapter = some a) (hs : e.autoSave = true) (harm : a.failAt = a.calls + 1)
     (sec pt : String) (sop : StoreOp) (hop : op.storeOp = some (sec, pt, sop)) :
     e'.memory = e.memory := by
-  sorry
+  exact memory_of_sameCore (armed_applyM e op ⟨⟨a, ha, harm⟩, hs⟩ sec pt sop hop e' res h)
 
 end Casbin.C11
